@@ -256,21 +256,29 @@ PROPS = {
         "native_cex": "c02_codec_replay",
         "kani": {"quick": ["c13_read_cmr_complete", "c13_read_cmr_short_complete"], "thorough": ["c13_read_fail_entropy_complete"]},
         "level": "proof",
-        "level_text": "Deductive proof (Verus) on the real decode_node (src/bit_encoding/decode.rs): for every input stream and every node position it terminates without "
-                      "underflow or panic (`index - natural` and `n - 1` cannot wrap, the word size passed to Word::from_bits is at most 31), every child reference of the "
-                      "returned node points strictly backwards, and the bits it consumed are exactly node_code(returned node) - the function encode_node writes (unit `encode`, C01) - so "
-                      "a node has one accepted spelling. Only this node-level part of C02 is addressed.",
-        "level_note": "Assumed contracts: BitIter::{read_bit, read_u2, read_natural} as proved in unit bitstream (C13); read_natural::<u32> = the usize instance; read_cmr / read_fail_entropy "
-                      "(Kani complete harnesses); Word::from_bits (consumes the word's bits, panics only for n > 31); J::decode (C14's soundness theorem). NOT decided: decode_expression's loop "
-                      "(canonical order, hidden set, index arithmetic), identity-hash sharing checks, type inference totality, re-encoding equality of whole programs and witnesses, trailing-byte / "
-                      "padding rejection at the call sites (BitIter::close itself is proved under C13).",
+        "level_text": "Deductive proof (Verus) on the real decode_node, decode_expression (src/bit_encoding/decode.rs) and ConstructNode::decode (src/node/construct.rs), for every input "
+                      "stream shorter than 2^31 bits: (totality) no subtraction underflows, no index is out of bounds (`converted[*i]`, `nodes[..]`, `converted[len - 1]`), no assert/panic "
+                      "can fire, the word size passed to Word::from_bits is at most 31, both loops terminate, and the second vector is allocated only after `len` nodes of at least two "
+                      "bits each were read (allocation linear in the input); (canonicity) decode_node consumes exactly ncode(returned node) - the function encode_node writes (unit `encode`, "
+                      "C01) -, every child reference points strictly backwards, an accepted program's bits are the length prefix followed by its nodes' codes, no hidden root repeats, and "
+                      "ConstructNode::decode accepts only inputs that end in fewer than eight zero padding bits (trailing bytes and non-zero padding rejected, via BitIter::close's contract).",
+        "level_note": "Assumed contracts: BitIter::{read_bit, read_u2, read_natural, close} as proved in unit bitstream (C13); read_natural::<u32> = the usize instance; read_cmr / read_fail_entropy "
+                      "(Kani complete harnesses); Word::from_bits (consumes the word's bits, panics only for n > 31); J::decode (C14's soundness theorem); the node constructors "
+                      "(ArcNode::unit .. const_word) are total; HashSet::insert; and the post-order iterator over (usize, &[DecodeNode]): consecutive numbering, yields positions of the slice, "
+                      "terminates, yields the root last (C18 proves these for PostOrderIter in general; the instantiation for this slice-position DagLike is assumed). NOT decided: that the "
+                      "canonical-order check together with the iterator contract excludes every unused / out-of-order node (the iterator's traversal order is not specified beyond the above), "
+                      "identity-hash sharing checks (CommitNode / RedeemNode::decode), type inference totality, whole-program re-encoding equality incl. witnesses, RedeemNode::decode's witness stream.",
         "assumptions": [
             "BitIter::{read_bit, read_u2, read_natural::<usize>} contracts (proved under C13); read_natural::<u32> behaves as the usize instance",
             "read_cmr / read_fail_entropy consume 256 / 512 bits (Kani complete harnesses c13_read_cmr_*, c13_read_fail_entropy_complete)",
             "Word::from_bits(bits, n) consumes exactly the word's bits and panics only for n > 31",
             "J::decode accepts exactly the returned jet's code (C14)",
+            "node constructors are total; HashSet::insert reports prior membership",
+            "post-order iterator over the decoded slice: consecutive numbering, valid positions, termination, root yielded last",
+            "inputs shorter than 2^31 bits",
         ],
-        "not_decided": ["decode_expression loop", "sharing checks by identity hash", "totality of type inference / finalisation", "whole-program re-encoding equality", "close() at the call sites"],
+        "not_decided": ["unused / out-of-order nodes beyond what the index check and the iterator contract give", "sharing checks by identity hash", "totality of type inference / finalisation",
+                        "whole-program re-encoding equality", "RedeemNode::decode witness stream and its close()"],
         "explanation": "",
     },
     "C01": {
